@@ -70,6 +70,10 @@ def run(R):
                 "with a disposed generator the stepper raises instead of returning a yield result",
                 "with a disposed generator the stepper can return normally", cfg.fmt_path(p) if p else None)
 
+    # ---- the drain works on the scheduler's own stack (a local alias goes stale when an unwind or reset rebinds the field: the
+    # loop then walks abandoned entries again)
+    from .c08 import stack_not_aliased
+    stack_not_aliased(R, ro, "C03.DRAIN-STACK")
     # ---- drain: dispatch only when not computed
     drain = ro.drain_method()
     dcfg = cfg_of(drain)
@@ -114,8 +118,25 @@ def run(R):
                 "%s is reached only for an entry that is not computed" % q.src(c)[:40],
                 "a stack entry that is already computed can be dispatched again (%s): a completed future would be computed / run a second time" % q.src(c)[:40],
                 dcfg.fmt_path(p) if p else None)
+    # an entry leaves the stack only when it is computed or has just been handed on (scheduled with its batch, computed): an
+    # uncomputed entry that is simply dropped is never completed, and the task awaiting it never wakes up
+    pops_ = [n for n, c in kit.call_sites(drain, lambda c: q.call_name(c) == "self.%s.pop" % sf)]
+    starts_ = [e.dst for e in dcfg.out_edges(topnode.id, N)]
+
+    def via_computed(e):
+        lab = unc(dcfg.nodes[e.src])
+        return not (lab is not None and e.label in ("T", "F") and e.label != lab)
+    for pn in pops_:
+        pp = dcfg.find_path(starts_, [pn], N, cut_nodes=[n for n, c in dispatch if n is not pn], keep_edge=via_computed)
+        R.check(pp is None, "C03.DISPATCH-UNCOMPUTED", "%s:pop:%s" % (drain.qualname, pn.lineno - drain.lineno), R.site(drain, pn.ast),
+                "an entry is popped only when it is computed or has just been dispatched (scheduled with its batch / computed)",
+                "an entry that is not computed can be popped without having been scheduled or computed (e.g. a yielded batch that has no items yet): "
+                "nothing will ever complete it, and the task that awaits it stays blocked - the computation spins or ends without its result",
+                dcfg.fmt_path(pp) if pp else None)
     # ---- STEP-LIVE
     common.step_live(R, ro, "C03.STEP-LIVE")
+    from .c12 import running_on_every_step
+    running_on_every_step(R, ro, "C03.STEP-LIVE")
 
     # a task handed to another thread's scheduler is resumed while it is running there: the deduplication scope is per thread
     from .c12 import dedup_key_rule
